@@ -25,8 +25,14 @@ type kscen struct {
 	LieN   bool  `json:"lieN"`
 	LieB    []int `json:"lieB"`
 	MulFree bool  `json:"mulFree"` // the multipliers of the exponentiation chains of the primality proof are the prover's choice
+	Wrap    bool  `json:"wrap"`    // roots of s + j*M (M the group order) for bases that are no squares, genuine modulus
+	Trap    bool  `json:"trap"`    // a group prime for which log_g h is known (for the generators 0x41424344^.., 0x494A4B4C^.. of old)
 	Accept  bool  `json:"accept"`
 }
+
+// a safe prime of 843 bits dividing 0x41424344^30 - 0x494A4B4C^31: for generators that are these fixed integers (to fixed powers)
+// reduced modulo the group prime it yields log_g h = 30*0x4D4E4F50 / (31*0x45464748) modulo (P-1)/2
+const trapdoorPrime = "32832107495699251718249769110573276177530015308674229108080589840027866790557871391180919381787014300400947692740736102240280361937694068887162589320806578664665007115701821694324502511419850022776152127814806962774858105322527946211259000535178314023407"
 
 func zeroforge(a *hx.Args, res *hx.Result) {
 	rng := hx.Rng(a.Seed, "kp-zeroforge")
@@ -70,6 +76,19 @@ func zeroforge(a *hx.Args, res *hx.Result) {
 	if !found {
 		hx.Fatal("no bad modulus of the shape (2a^3+1)(2b+1) found")
 	}
+	// for the wrap-around forgery: genuine safe primes of 170 bits
+	var wa, wb *gobig.Int
+	for _, s := range scen {
+		if s.Wrap && wa == nil {
+			for {
+				wa = half(randSafePrime(rng, 170, nil))
+				wb = half(randSafePrime(rng, 171, nil))
+				if keyproof.CanProve(G(wa), G(wb)) {
+					break
+				}
+			}
+		}
+	}
 	reps := []struct {
 		name string
 		f    func(gp *big.Int) *big.Int
@@ -84,15 +103,43 @@ func zeroforge(a *hx.Args, res *hx.Result) {
 	}
 	var jobs []job
 	for _, s := range scen {
+		if s.Wrap && a.Tier != "thorough" && len(s.LieB) != 2 {
+			continue // (a proof for a modulus of 340 bits takes half a minute: the quick tier runs one of the three)
+		}
 		if !s.ZeroP && !s.ZeroN {
 			jobs = append(jobs, job{s, 0})
-			if s.MulFree {
+			if s.MulFree || s.Wrap || s.Trap {
 				jobs = append(jobs, job{s, 1}) // control: the same claims with the committed base powers as multipliers
 			}
 			continue
 		}
 		for r := range reps {
 			jobs = append(jobs, job{s, r})
+		}
+	}
+	// a public key whose base is not reduced modulo n (a key file may carry b + k*n): the verifier must return a verdict
+	{
+		P := new(gobig.Int).Add(new(gobig.Int).Lsh(ga, 1), b1)
+		Q := new(gobig.Int).Add(new(gobig.Int).Lsh(gb, 1), b1)
+		n := new(gobig.Int).Mul(P, Q)
+		sq := gobig.NewInt(36)
+		big36 := new(gobig.Int).Add(sq, new(gobig.Int).Lsh(n, 600))
+		res.Eval("unreduced-base")
+		var ok1, ok2 bool
+		panicked, msg := hx.Try(func() {
+			st := keyproof.NewValidKeyProofStructure(G(n), []*big.Int{G(sq)})
+			proof := st.BuildProof(G(ga), G(gb))
+			ok1 = st.VerifyProof(proof)
+			v := keyproof.NewValidKeyProofStructure(G(n), []*big.Int{G(big36)})
+			ok2 = v.VerifyProof(proof)
+		})
+		switch {
+		case panicked:
+			res.Violation("keyproof-panic", "VerifyProof panicked for a public key with a base that is not reduced modulo n: "+msg, hx.M{"base": "36 + n*2^600"})
+		case !ok1:
+			res.Violation("honest-key-proof-rejected", "the honest proof does not verify", hx.M{})
+		default:
+			res.Count(fmt.Sprintf("unreduced-base:accepted=%v", ok2))
 		}
 	}
 	seeds := make([]int64, len(jobs))
@@ -106,6 +153,9 @@ func zeroforge(a *hx.Args, res *hx.Result) {
 		av, e, bv := ga, 1, gb
 		if s.LieN {
 			av, e, bv = ba, 3, bb
+		}
+		if s.Wrap {
+			av, bv = wa, wb // a genuine safe-prime product of 340 bits: the quotient of the wrapped relation must fit its range proof, which needs |n| above about 300
 		}
 		P := new(gobig.Int).Exp(av, gobig.NewInt(int64(e)), nil)
 		P.Lsh(P, 1).Add(P, b1)
@@ -134,13 +184,42 @@ func zeroforge(a *hx.Args, res *hx.Result) {
 		if s.MulFree {
 			label = fmt.Sprintf("composite (P-1)/2 committed honestly, free multipliers=%v", j.rep == 0)
 		}
+		if s.Wrap {
+			label = fmt.Sprintf("genuine modulus of %d bits, non-square bases %v, roots modulo the group order=%v", n.BitLen(), s.LieB, j.rep == 0)
+		}
+		if s.Trap {
+			label = fmt.Sprintf("group prime with known log_g h for the fixed generators, unrelated prime committed as (p-1)/2, relation adjusted=%v", j.rep == 0)
+		}
 		res.Eval(label)
 		det := hx.M{"scenario": s, "representative": reps[j.rep].name, "n": n.String(), "P": P.String(), "Q": Q.String()}
 		var accepted bool
 		var berr error
 		panicked, msg := hx.Try(func() {
 			var proof keyproof.ValidKeyProof
-			if s.MulFree {
+			if s.Wrap {
+				st := keyproof.NewValidKeyProofStructure(G(n), bases)
+				gp := keyproof.VerifFindSafePrime(n.BitLen() + 2*keyproof.VerifRangeProofEpsilon + 10) // as the honest prover chooses it
+				proof, _, berr = keyproof.VerifForgeSquareWrap(&st, gp, G(av), G(bv), j.rep == 0)
+				if berr != nil {
+					return
+				}
+			} else if s.Trap {
+				P, _ := new(gobig.Int).SetString(trapdoorPrime, 10)
+				q := new(gobig.Int).Rsh(P, 1)
+				td := new(gobig.Int).Mul(gobig.NewInt(30), gobig.NewInt(0x4D4E4F50))
+				td.Mul(td, new(gobig.Int).ModInverse(new(gobig.Int).Mul(gobig.NewInt(31), gobig.NewInt(0x45464748)), q)).Mod(td, q)
+				fake := new(gobig.Int).Exp(av, gobig.NewInt(3), nil)
+				for fake.Add(fake, b1); !fake.ProbablyPrime(30); fake.Add(fake, b1) {
+				}
+				var tdp *big.Int
+				if j.rep == 0 {
+					tdp = G(td)
+				}
+				proof, _, berr = keyproof.VerifForgeTrapdoorGroup(G(P), tdp, G(av), e, G(bv), G(fake), bases)
+				if berr != nil {
+					return
+				}
+			} else if s.MulFree {
 				var ok bool
 				if proof, ok = keyproof.VerifForgeFreeMultipliers(G(av), e, G(bv), bases, j.rep == 0); !ok {
 					berr = fmt.Errorf("no answerable ASPP challenge")
@@ -181,6 +260,9 @@ func zeroforge(a *hx.Args, res *hx.Result) {
 			res.Violation("keyproof-panic", "building or verifying "+label+" panicked: "+msg, det)
 		case berr != nil:
 			hx.Fatal("cheating prover failed for %s: %v", label, berr)
+		case accepted && s.Wrap && j.rep == 0:
+			det["cause"] = "group-order-too-small-for-squares-of-n-bit-roots"
+			res.Violation("non-square-bases-accepted-by-wrap-around", "ValidKeyProof accepted for a genuine modulus and base(s) that are no squares: "+label, det)
 		case accepted && (s.LieN || len(s.LieB) > 0):
 			res.Violation("key-proof-accepted-for-bad-key", "ValidKeyProof accepted for "+map[bool]string{true: "a modulus with a factor that is no safe prime", false: "a genuine modulus"}[s.LieN]+
 				fmt.Sprintf(" and %d base(s) that are no squares (%s)", len(s.LieB), label), det)
